@@ -278,7 +278,7 @@ pub fn self_checks(quads: &[Q], o: &mut Outcome) {
         o.fails.push(("unsorted_or_dup".into(), format!("{}", lines.len())));
     }
     // generalized RDF (literal subject / non-IRI predicate) has no N-Quads syntax to parse back
-    if quads.iter().any(|q| !matches!(q.p, T::Iri(_)) || matches!(q.s, T::Lit(..) | T::Lang(..))) {
+    if quads.iter().any(|q| !matches!(q.p, T::Iri(_)) || matches!(q.s, T::Lit(..) | T::Lang(..)) || matches!(q.g, Some(T::Lit(..)) | Some(T::Lang(..)))) {
         return;
     }
     let parsed: Result<Vec<SQ>, _> = sophia_turtle::parser::nq::NQuadsParser {}.parse_str(&out).collect_quads();
@@ -292,12 +292,8 @@ pub fn self_checks(quads: &[Q], o: &mut Outcome) {
                 let d = back.symmetric_difference(&returned).next().map(|q| q.render()).unwrap_or_default();
                 o.fails.push(("parse_back".into(), hex(&d)));
             }
-            let input: Vec<SQ> = quads.iter().map(q_to_simple).collect();
-            match sophia_isomorphism::isomorphic_datasets(&p, &input) {
-                Ok(true) => {}
-                Ok(false) => o.fails.push(("parse_back_iso".into(), "false".into())),
-                Err(_) => o.fails.push(("parse_back_iso".into(), "error".into())),
-            }
+            // (isomorphism of the parsed document with the input follows from the two exact comparisons above;
+            // sophia_isomorphism is C07's business and is not consulted)
         }
     }
 }
@@ -562,6 +558,94 @@ pub fn enumeration_orders(quads: &[Q], rng: &mut Rng, shuffles: usize) -> Vec<(&
     out
 }
 
+/// `copies` (1 or 2) of: hub -p-> k siblings, sibling i -r-> tail i, tail i carries the literal "i".
+/// The siblings share their first-degree hash and are PAIRWISE distinguishable (distance-2 twist), so the
+/// related list of the hub has k distinct non-automorphic nodes: which permutation is chosen decides the
+/// labelling.  With two copies the hubs are ambiguous too (Hash N-Degree Quads is entered on the hub);
+/// `near_twin` gives one tail of the second copy a second literal.
+pub fn hub_siblings(k: usize, ncopies: usize, near_twin: bool, outward: bool) -> Vec<Q> {
+    let mut v = vec![];
+    for c in 0..ncopies {
+        let pre = ["u", "w"][c % 2];
+        let hub = T::Bnode(format!("{}h", pre));
+        for i in 0..k {
+            let sib = T::Bnode(format!("{}s{}", pre, i));
+            let tail = T::Bnode(format!("{}t{}", pre, i));
+            v.push(if outward { quad(hub.clone(), iri(P0), sib.clone(), None) } else { quad(sib.clone(), iri(P0), hub.clone(), None) });
+            v.push(quad(sib, iri("x:r0"), tail.clone(), None));
+            v.push(quad(tail.clone(), iri(P1), T::Lit(format!("{}", i), "http://www.w3.org/2001/XMLSchema#string".into()), None));
+            if near_twin && c == 1 && i == 0 {
+                v.push(quad(tail, iri(P1), T::Lit("twist".into(), "http://www.w3.org/2001/XMLSchema#string".into()), None));
+            }
+        }
+    }
+    v
+}
+
+/// variants of `smaller_path_family` (>= 10 temporary identifiers in a component that is not vertex-transitive):
+///   1: x linked in three graphs (related list [x, x, x, y]);  2: x and y both doubly linked, y also from m ([x, x, y, y])
+pub fn smaller_path_family2(len: usize, ncopies: usize, variant: usize) -> Vec<Q> {
+    let mut v = vec![];
+    for c in 0..ncopies {
+        let pre = ["k", "l"][c % 2];
+        let a = |i: usize| T::Bnode(format!("{}a{}", pre, i));
+        let x = T::Bnode(format!("{}x", pre));
+        let y = T::Bnode(format!("{}y", pre));
+        let m = T::Bnode(format!("{}m", pre));
+        for i in 0..len - 1 {
+            v.push(quad(a(i), iri(P0), a(i + 1), None));
+        }
+        let hub = a(len - 1);
+        v.push(quad(hub.clone(), iri(P1), x.clone(), None));
+        v.push(quad(hub.clone(), iri(P1), x.clone(), Some(iri(G0))));
+        v.push(quad(hub.clone(), iri(P1), y.clone(), None));
+        v.push(quad(m.clone(), iri(P1), y.clone(), Some(iri(G0))));
+        if variant == 1 {
+            v.push(quad(hub.clone(), iri(P1), x.clone(), Some(iri("x:g1"))));
+            v.push(quad(m.clone(), iri(P1), y.clone(), Some(iri("x:g1"))));
+        } else {
+            v.push(quad(hub.clone(), iri(P1), y.clone(), Some(iri("x:g1"))));
+            v.push(quad(m.clone(), iri(P1), x.clone(), Some(iri("x:g1"))));
+            v.push(quad(m.clone(), iri("x:r0"), iri("x:o"), None));
+        }
+    }
+    v
+}
+
+/// `n` (>= 11) blank nodes told apart by a literal each — canonical identifiers c14n0..c14n(n-1) are issued in
+/// step 4, two-digit ones included — all linked to two near-twins t0, t1 that can only be told apart two steps
+/// away: the paths of Hash N-Degree Quads contain `_:c14n10`, `_:c14n11` next to `_:c14n9`
+pub fn canonical_ids_then_twins(n: usize) -> Vec<Q> {
+    let xs = "http://www.w3.org/2001/XMLSchema#string";
+    let mut v = vec![];
+    let t = |i: usize| T::Bnode(format!("t{}", i));
+    for i in 0..n {
+        let c = T::Bnode(format!("c{}", i));
+        v.push(quad(c.clone(), iri(P1), T::Lit(format!("{}", i), xs.into()), None));
+        v.push(quad(c.clone(), iri(P0), t(0), None));
+        v.push(quad(c, iri(P0), t(1), None));
+    }
+    for i in 0..2 {
+        let u = T::Bnode(format!("u{}", i));
+        let w = T::Bnode(format!("w{}", i));
+        v.push(quad(t(i), iri("x:r0"), u.clone(), None));
+        v.push(quad(u, iri("x:r0"), w.clone(), None));
+        v.push(quad(w, iri(P1), T::Lit(["a", "b"][i].into(), xs.into()), None));
+    }
+    v
+}
+
+/// a quad mentions one blank node in two positions
+pub fn has_self_ref(quads: &[Q]) -> bool {
+    quads.iter().any(|q| {
+        let mut ls: Vec<&T> = [Some(&q.s), Some(&q.o), q.g.as_ref()].into_iter().flatten().filter(|t| matches!(t, T::Bnode(_))).collect();
+        let n = ls.len();
+        ls.sort();
+        ls.dedup();
+        ls.len() != n
+    })
+}
+
 pub fn random_graph(rng: &mut Rng, nb: usize, nq: usize) -> Vec<Q> {
     let preds = [P0, P1];
     let mut v = vec![];
@@ -591,10 +675,13 @@ pub fn base_reply(req: &Req, o: &Outcome) -> String {
     let mut s = String::new();
     match (&o.out, &o.err) {
         (Some(out), _) => {
-            // the id map of automorphic nodes depends on the dataset's iteration order: it is compared
-            // with the model only for the container whose order is the request's order
-            let mk = if req.cont == "ord" { "map" } else { "map_unordered" };
-            s += &format!("st=ok out={} {}={} dg={}", hex(out), mk, map_field(&o.map), digest_hex(&req.hash, out.as_bytes()));
+            // WHICH of several automorphic nodes gets which identifier is not part of the property (it depends on
+            // the dataset's iteration order, the permutation enumeration, the tie order of an unstable sort):
+            // the id map is printed for information (`map_info`, never compared with the model's `map`); what IS
+            // demanded of it is checked in `self_checks`: a bijection onto c14n0..n-1 that maps the input onto the
+            // returned quads, whose serialisation is `out` (compared byte for byte with the model)
+            let _ = &req.cont;
+            s += &format!("st=ok out={} map_info={} dg={}", hex(out), map_field(&o.map), digest_hex(&req.hash, out.as_bytes()));
         }
         (None, Some(e)) => s += &format!("st={}", e),
         _ => s += "st=none",
